@@ -152,7 +152,10 @@ Definition err_eqb (x y : err) : bool :=
      5  an unrequested reply was refused with something other than AccessDenied, or the refusal changed... (C09)
      6  a call was passed on although its sender already had max_replies open calls, not counting the one this very
         message answers (C09 limit)
-     7  destination has no owner but the message was not answered by NameHasNoOwner / ServiceUnknown (C05) *)
+     7  destination has no owner but the message was not answered by NameHasNoOwner / ServiceUnknown (C05)
+     8  a message to an existing owner was refused without one of the reasons the documentation gives: unrequested reply
+        under the restrictive policy (AccessDenied), fds (NotSupported), same serial still outstanding towards that
+        callee (AccessDenied), max_replies_per_connection open calls (LimitsExceeded)  (C05 "is delivered", C09 "iff") *)
 Definition oracle_step (cf : cfg) (tr : trace) (owner : option N) (e : event) (o : out) : N :=
   let T := reply_timeout cf in
   match e with
@@ -175,9 +178,16 @@ Definition oracle_step (cf : cfg) (tr : trace) (owner : option N) (e : event) (o
           else match owner with
                | None => if err_eqb x (if m_noauto m then ENameHasNoOwner else EServiceUnknown) then 0 else 7
                | Some w =>
+                   let wants_slot := is_call m && negb (m_noreply m) in
+                   let unrequested := restrictive cf && negb (m_rserial m =? 0) && negb (is_open T tr w c (m_rserial m)) in
+                   let others := length (filter (fun k => let '(a, _, _) := k in a =? c)
+                                                (filter (fun k => negb (key_eqb k (c, w, m_serial m)) && negb (key_eqb k (w, c, m_rserial m))) (open_keys T tr))) in
                    if err_eqb x ENoReply then 4
-                   else if restrictive cf && negb (m_rserial m =? 0) && negb (is_open T tr w c (m_rserial m)) && negb (err_eqb x EAccessDenied) then 5
-                   else 0
+                   else if unrequested then (if err_eqb x EAccessDenied then 0 else 5)
+                   else if err_eqb x ENotSupported then (if 0 <? m_nfds m then 0 else 8)
+                   else if err_eqb x EAccessDenied then (if wants_slot && is_open T tr c w (m_serial m) then 0 else 8)
+                   else if err_eqb x ELimitsExceeded then (if wants_slot && (max_replies cf <=? N.of_nat others) then 0 else 8)
+                   else 8
                end
       | _ => 2
       end
